@@ -373,6 +373,9 @@ inductive HOp where
   | fill (k : Key) (px : List Nat)             -- `frame.fill(r, g, b, a)`
   | setFmt (fmt : Nat)                         -- `vtf.format = …`
   | setLowFmt (fmt : Nat)                      -- `vtf.low_format = …`
+  | copyFrame (dst src : Key)                  -- `dst.copy_from(src)`, both frames of this VTF (`dst = src` allowed)
+  | touch (k : Key)                            -- a `copy_from(buffer)` that raises (wrong size / not a buffer)
+  | rescale (dst src : Key) (filt : Nat)       -- `dst.rescale_from(src, FilterMode(filt))` (`dst = src` allowed)
 deriving Repr
 
 def updFrame (v : Vtf) (k : Key) (g : FrameM → FrameM) : Vtf :=
@@ -384,6 +387,37 @@ def setPixelF (x y : Int) (px : List Nat) (fr : FrameM) : FrameM :=
   match frameIndex l.w l.h x y with
   | some off => { l with data := some ((l.data.getD []).take off ++ px ++ (l.data.getD []).drop (off + 4)) }
   | none => l
+
+/-- `dst.copy_from(src)` for two frames of the object (possibly the same one): sizes must agree
+(`ValueError`, nothing changes); the source is loaded; the destination gets a copy of its content
+and is no longer lazy. With `dst = src` this is just `load()`. -/
+def copyFrameOp (v : Vtf) (dst src : Key) : Vtf :=
+  match lookupFrame v.frames dst, lookupFrame v.frames src with
+  | some d, some s =>
+    if d.w ≠ s.w ∨ d.h ≠ s.h then v
+    else if dst == src then updFrame v src FrameM.load     -- its own array is assigned onto itself
+    else
+      let v1 := updFrame v src FrameM.load
+      updFrame v1 dst fun fr => { fr with data := s.load.data, fileData := none }
+  | _, _ => v
+
+/-- `dst.rescale_from(src, filter)`: size check (`ValueError`, nothing changes); a destination
+without data becomes blank; if the source holds data (it is *not* loaded) the destination is
+`scale_down` of it. Neither frame stops being lazy. -/
+def rescaleOp (v : Vtf) (dst src : Key) (filt : Nat) : Vtf :=
+  match lookupFrame v.frames dst, lookupFrame v.frames src with
+  | some d, some s =>
+    if !rescaleOK d.w d.h s.w s.h then v
+    else
+      let d1 : FrameM := { d with data := some (d.data.getD (blank d.w d.h)) }
+      let sdata := if dst == src then d1.data else s.data
+      match sdata with
+      | none => updFrame v dst fun _ => d1
+      | some sd =>
+        match scaleDown filt s.w s.h d.w d.h sd with
+        | some out => updFrame v dst fun _ => { d1 with data := some out }
+        | none => updFrame v dst fun _ => d1
+  | _, _ => v
 
 /-- the object after a successful `save`: `compute_mipmaps()` has run, the thumbnail and every
 frame that was written have been loaded. -/
@@ -419,6 +453,9 @@ def stepOp (v : Vtf) : HOp → Except Err (Vtf × Option (List Nat))
     .ok (updFrame v k (fun fr => { fr with data := some ((List.replicate (fr.w * fr.h) px).flatten), fileData := none }), none)
   | .setFmt f => .ok ({ v with fmt := f }, none)
   | .setLowFmt f => .ok ({ v with lowFmt := f }, none)
+  | .copyFrame dst src => .ok (copyFrameOp v dst src, none)
+  | .touch k => .ok (updFrame v k (fun fr => { fr with data := some (fr.data.getD (blank fr.w fr.h)) }), none)
+  | .rescale dst src filt => .ok (rescaleOp v dst src filt, none)
 
 /-- run a history; the result of every save in order, stopping at the first error. -/
 def runHistory (v : Vtf) : List HOp → List (Except Err (List Nat))
